@@ -20,6 +20,9 @@ import (
 
 func init() { core.RegisterJudge("C06", "budget", judgeC06) }
 
+// c06Shared is one caller-owned VM reused for every case of the process.
+var c06Shared = &vm.VM{}
+
 func judgeC06(c *core.Case, cfg *core.Config) core.Verdict {
 	x, spec := c.X, c.Env
 	opt, mode := c.Bool("opt"), c.Str("mode")
@@ -82,9 +85,16 @@ func judgeC06(c *core.Case, cfg *core.Config) core.Verdict {
 	}
 	saved := vm.MemoryBudget
 	vm.MemoryBudget = int(budget)
-	var ilog []string
+	var ilog, ilog2 []string
 	out, rerr := run(p, spec.Build(&ilog))
+	// the same run on one long-lived caller-owned VM that has executed (and failed) many other programs before:
+	// the budget is per run, whatever the VM did earlier
+	out2, rerr2 := vmRun(c06Shared, p, spec.Build(&ilog2))
 	vm.MemoryBudget = saved
+	if (rerr == nil) != (rerr2 == nil) || rerr == nil && !core.Equiv(out, out2) {
+		v.Violation = fmt.Sprintf("budget %d, needs %d: a fresh VM gives %s, a long-lived VM gives %s", budget, A, runOut{out, rerr, nil}, runOut{out2, rerr2, nil})
+		return v
+	}
 	v.Classes = append(v.Classes, "budget:"+bkind, "mode:"+mode, fmt.Sprintf("opt:%v", opt), fmt.Sprintf("sites:%d", bucket(len(ref.Allocs))))
 	if ref.Desc {
 		v.Classes = append(v.Classes, "has-descending-range")
@@ -197,7 +207,23 @@ func (a *c06Gen) rng(d int) *core.X {
 }
 
 // intSeq: a sequence of ints
+// sliced: slicing allocates nothing, whatever bounds are present
+func (a *c06Gen) sliced(x *core.X) *core.X {
+	sl := &core.X{K: "slice", A: []*core.X{x, nil, nil}, Ty: x.Ty}
+	m := 1 + a.pick(3, "slm")
+	if m&1 != 0 {
+		sl.A[1] = core.LitInt(a.pick(4, "slf"))
+	}
+	if m&2 != 0 {
+		sl.A[2] = core.LitInt(a.pick(6, "slt"))
+	}
+	return sl
+}
+
 func (a *c06Gen) intSeq(d int) *core.X {
+	if d > 0 && a.pick(6, "slice") == 0 {
+		return a.sliced(a.intSeq(d - 1))
+	}
 	a.fuel--
 	k := a.pick(6, "sk")
 	if d <= 0 || a.fuel <= 0 {
